@@ -55,17 +55,18 @@ example (E : Hid.Env) (a : Nat) : Hid.binArith E .div a 0 = none := by simp [Hid
 
 /-- **C05 on the core**: whenever the source semantics faults with a division by zero, a checked
 build prints what was printed before, then `division_by_zero`, `error`, and stays in the
-terminal loop (no machine fault, no wrong value). -/
-theorem core_division_by_zero (cf : Core.Config) (body : Core.S) (hw : 2 ≤ cf.w) (hck : cf.checked = true)
-    (hB : Core.funcLen cf.checked body + stdlibLength < 256 ^ cf.w)
-    (hSE : 5 * cf.w + cf.stackWords * cf.w + cf.w < 256 ^ cf.w)
-    (hwf : Core.wfS [] body = true) (hyl : Core.youLevel body = true)
+terminal loop (no machine fault, no wrong value) — for every program and argument vector. -/
+theorem core_division_by_zero (cf : Core.Config) (params : List String) (args : List Int) (body : Core.S)
+    (hw : 2 ≤ cf.w) (hck : cf.checked = true)
+    (hB : Core.funcLen cf.checked body + stdlibLength < 256 ^ cf.w) (hSE : Core.F0 cf args < 256 ^ cf.w)
+    (hnd : params.Nodup) (hlen : args.length = params.length)
+    (hwf : Core.wfS params body = true) (hyl : Core.youLevel body = true)
     (fuel : Nat) (env' : Core.Env) (tr : List Ev)
-    (hex : Core.exec (256 ^ cf.w) (8 * cf.w) fuel (fun _ => 0) body = some (env', tr, .div0))
-    (hroom : Core.pkS cf.w cf.w body ≤ (cf.stackWords + 1) * cf.w) :
-    ∃ mEnd, Exec (sphinx (Core.coreProg cf body)) (Core.coreInit cf body)
+    (hex : Core.exec (256 ^ cf.w) (8 * cf.w) fuel (Core.argEnv (256 ^ cf.w) params args) body = some (env', tr, .div0))
+    (hroom : Core.pkS cf.w (Core.entryOff cf.w params) body ≤ cf.stackWords * cf.w + args.length * cf.w + cf.w) :
+    ∃ mEnd, Exec (sphinx (Core.coreProg cf params body)) (Core.coreInit cf args body)
       (tr ++ [Ev.flag "division_by_zero", Ev.flag "error"]) ⟨tntPc (Core.funcLen cf.checked body), mEnd⟩ :=
-  let ⟨m, h, _⟩ := Core.core_correct cf body hw hB hSE hwf hyl fuel env' tr .div0 hex (fun _ => hck) hroom
+  let ⟨m, h, _⟩ := Core.core_correct cf params args body hw hB hSE hnd hlen hwf hyl fuel env' tr .div0 hex (fun _ => hck) hroom
   ⟨m, h⟩
 
 end HidVerif.Props.C05
